@@ -1,0 +1,194 @@
+//go:build verif
+
+// Construction of a complete dataPlane over the real udpip provider with an injected ConnOpener,
+// for the buffer-ownership check (see pooltrack_verif.go). Add-only; no behaviour change.
+
+package router
+
+import (
+	"context"
+	"fmt"
+	"net/netip"
+	"time"
+
+	"github.com/gopacket/gopacket/layers"
+
+	"github.com/scionproto/scion/pkg/addr"
+	"github.com/scionproto/scion/pkg/private/ptr"
+	"github.com/scionproto/scion/pkg/segment/iface"
+	"github.com/scionproto/scion/private/topology"
+	"github.com/scionproto/scion/router/control"
+)
+
+// Fixed topology of the dataplane built by VerifPoolNewDP.
+const (
+	VerifPoolLocalIA      = "1-ff00:0:110"
+	VerifPoolInternalAddr = "10.0.0.1:30042"
+	VerifPoolSiblingAddr  = "10.0.0.2:30042" // sibling router; owns interface 3
+	VerifPoolExt1Local    = "10.1.0.1:50000" // interface 1 -> 1-ff00:0:111 (parent)
+	VerifPoolExt1Remote   = "10.1.0.2:50000"
+	VerifPoolExt1IA       = "1-ff00:0:111"
+	VerifPoolExt2Local    = "10.2.0.1:50000" // interface 2 -> 1-ff00:0:112 (child)
+	VerifPoolExt2Remote   = "10.2.0.2:50000"
+	VerifPoolExt2IA       = "1-ff00:0:112"
+	VerifPoolSibIfID      = 3 // -> 1-ff00:0:113 (child), over the sibling link
+	VerifPoolSibIA        = "1-ff00:0:113"
+)
+
+// VerifPoolConfig configures VerifPoolNewDP.
+type VerifPoolConfig struct {
+	NumProcessors         int
+	NumSlowPathProcessors int
+	BatchSize             int
+	ConnOpener            any    // a udpip.ConnOpener
+	Key                   []byte // hop field MAC key
+	BFD                   bool   // BFD sessions on interface 2 and on the sibling link
+	BFDTx, BFDRx          time.Duration
+}
+
+// VerifPoolDP is a dataPlane with one internal, two external and one sibling link.
+type VerifPoolDP struct {
+	dp *dataPlane
+}
+
+// VerifPoolNewDP builds the dataplane through the same calls the control plane connector makes.
+func VerifPoolNewDP(c VerifPoolConfig) (*VerifPoolDP, error) {
+	dp := newDataPlane(RunConfig{
+		NumProcessors:         c.NumProcessors,
+		NumSlowPathProcessors: c.NumSlowPathProcessors,
+		BatchSize:             c.BatchSize,
+	}, false)
+	dp.underlays["udpip"].SetConnOpener(c.ConnOpener)
+	local := addr.MustParseIA(VerifPoolLocalIA)
+	if err := dp.SetIA(local); err != nil {
+		return nil, err
+	}
+	if err := dp.SetKey(c.Key); err != nil {
+		return nil, err
+	}
+	dp.SetPortRange(1024, 65535)
+	nbr := map[uint16]string{1: VerifPoolExt1IA, 2: VerifPoolExt2IA, VerifPoolSibIfID: VerifPoolSibIA}
+	for i, ia := range nbr {
+		if err := dp.AddNeighborIA(i, addr.MustParseIA(ia)); err != nil {
+			return nil, err
+		}
+	}
+	host := func(s string) addr.Host { return addr.HostIP(netip.MustParseAddrPort(s).Addr()) }
+	if err := dp.AddInternalInterface(
+		host(VerifPoolInternalAddr), "udpip", VerifPoolInternalAddr); err != nil {
+		return nil, err
+	}
+	bfd := func(on bool) control.BFD {
+		if !on {
+			return control.BFD{Disable: ptr.To(true)}
+		}
+		return control.BFD{
+			Disable:               ptr.To(false),
+			DetectMult:            3,
+			DesiredMinTxInterval:  c.BFDTx,
+			RequiredMinRxInterval: c.BFDRx,
+		}
+	}
+	ext := func(ifID uint16, l, r, ia string, withBFD bool, lt topology.LinkType) error {
+		return dp.AddExternalInterface(ifID, control.LinkInfo{
+			Provider: "udpip",
+			Local:    control.LinkEnd{IA: local, Addr: l, IfID: iface.ID(ifID)},
+			Remote:   control.LinkEnd{IA: addr.MustParseIA(ia), Addr: r},
+			BFD:      bfd(withBFD),
+			LinkTo:   lt,
+		}, host(l), host(r))
+	}
+	if err := ext(1, VerifPoolExt1Local, VerifPoolExt1Remote, VerifPoolExt1IA, false,
+		topology.Parent); err != nil {
+		return nil, err
+	}
+	if err := ext(2, VerifPoolExt2Local, VerifPoolExt2Remote, VerifPoolExt2IA, c.BFD,
+		topology.Child); err != nil {
+		return nil, err
+	}
+	if err := dp.AddNextHop(VerifPoolSibIfID, control.LinkInfo{
+		Provider: "udpip",
+		Local:    control.LinkEnd{IA: local, Addr: VerifPoolInternalAddr},
+		Remote:   control.LinkEnd{IA: local, Addr: VerifPoolSiblingAddr},
+		BFD:      bfd(c.BFD),
+		LinkTo:   topology.Child,
+		Instance: "br-sibling",
+	}, host(VerifPoolInternalAddr), host(VerifPoolSiblingAddr)); err != nil {
+		return nil, err
+	}
+	return &VerifPoolDP{dp: dp}, nil
+}
+
+// Run is dataPlane.Run.
+func (v *VerifPoolDP) Run(ctx context.Context) error { return v.dp.Run(ctx) }
+
+// Shutdown is dataPlane.Shutdown.
+func (v *VerifPoolDP) Shutdown() { v.dp.Shutdown() }
+
+// Running is dataPlane.isRunning.
+func (v *VerifPoolDP) Running() bool { return v.dp.isRunning() }
+
+// Underlay returns the udpip provider.
+func (v *VerifPoolDP) Underlay() UnderlayProvider { return v.dp.underlays["udpip"] }
+
+// PoolCap is the size of the packet pool (valid once running).
+func (v *VerifPoolDP) PoolCap() int { return cap(v.dp.packetPool.pool) }
+
+// PoolLen is the number of buffers in the pool right now.
+func (v *VerifPoolDP) PoolLen() int { return len(v.dp.packetPool.pool) }
+
+// DrainPool empties the pool (only meaningful after Shutdown) and returns its content.
+func (v *VerifPoolDP) DrainPool() []*Packet {
+	var out []*Packet
+	for {
+		select {
+		case p := <-v.dp.packetPool.pool:
+			out = append(out, p)
+		default:
+			return out
+		}
+	}
+}
+
+// InterfaceUp reports the BFD state of the link of ifID.
+func (v *VerifPoolDP) InterfaceUp(ifID uint16) bool {
+	return v.dp.interfaces[ifID] != nil && v.dp.interfaces[ifID].IsUp()
+}
+
+// VerifPoolBFDSender returns the Send method of a new bfdSend for interface ifID (2 or the
+// sibling interface), as newExternalInterfaceBFD / newNextHopBFD create it. Not goroutine safe
+// (like bfdSend.Send): one caller per returned function.
+func (v *VerifPoolDP) VerifPoolBFDSender(ifID uint16) (func(*layers.BFD) error, error) {
+	host := func(s string) addr.Host { return addr.HostIP(netip.MustParseAddrPort(s).Addr()) }
+	local := addr.MustParseIA(VerifPoolLocalIA)
+	var (
+		link   control.LinkInfo
+		lh, rh addr.Host
+		intra  bool
+	)
+	switch ifID {
+	case 1, 2:
+		l, r, ia := VerifPoolExt1Local, VerifPoolExt1Remote, VerifPoolExt1IA
+		if ifID == 2 {
+			l, r, ia = VerifPoolExt2Local, VerifPoolExt2Remote, VerifPoolExt2IA
+		}
+		link = control.LinkInfo{
+			Local:  control.LinkEnd{IA: local, Addr: l, IfID: iface.ID(ifID)},
+			Remote: control.LinkEnd{IA: addr.MustParseIA(ia), Addr: r},
+		}
+		lh, rh = host(l), host(r)
+	case VerifPoolSibIfID:
+		link = control.LinkInfo{
+			Local:  control.LinkEnd{IA: local, Addr: VerifPoolInternalAddr},
+			Remote: control.LinkEnd{IA: local, Addr: VerifPoolSiblingAddr},
+		}
+		lh, rh, intra = host(VerifPoolInternalAddr), host(VerifPoolSiblingAddr), true
+	default:
+		return nil, fmt.Errorf("no such interface %d", ifID)
+	}
+	s, err := newBFDSend(v.dp, link, lh, rh, ifID, intra, v.dp.macFactory())
+	if err != nil {
+		return nil, err
+	}
+	return s.Send, nil
+}
